@@ -21,21 +21,28 @@ RULE = (
     "rendered by a real Environment(extra=True) with a DictLoader and by the Lean model; observation = output text or "
     "exception class. Non-trivial: the render goes through an extends tag and at least one block has two or more "
     "definitions on the chain, or the outcome is an inheritance/required-block error; for endblock: the sequence contains "
-    "a named endblock."
+    "a named endblock. Deepening round: stream syn — on well-formed chains (pool + random) the Lean syntactic flattening "
+    "`flattenSyn` rendered by the plain renderer vs the implementation, the Liquid source of the annotation-free flattened "
+    "template computed by Lean and independently in Python must be the same text, and when it is hygienic and raise-free "
+    "that source is rendered by a real Environment WITHOUT the extra tags and must equal the chain's output; stream async — "
+    "render_async of every pool chain and random chains; stream assign — every chain of length 1..3 (thorough 4) over 8 "
+    "bodies with assign/capture before/after block.super, in nested blocks and at top level, plus random chains, the root "
+    "ending in probes that show what reached the base template's scope (non-trivial: some block body assigns)."
 )
 TRUSTED_BASE = [
     "Lean 4.33 kernel; axioms subset of {propext, Classical.choice, Quot.sound}",
+    "hand-written models Model/InheritFlat.lean (syntactic flattening, plain renderer) and Model/InheritAssign.lean (locals of live contexts under assign/capture)",
     "hand-written models LiquidVerif/Model/Inherit.lean (extends_tag.py: _find_inheritance_nodes, _stack_blocks, _store_blocks, _build_block_stacks, BlockNode.render_to_output, BlockDrop super) and Model/InheritParse.lean (BlockTag.parse endblock-name check)",
     "correspondence harness harness/props/c18.py + Driver/C18.lean (differential: every case runs on the real Environment and on the model)",
     "the rest of the render pipeline (lexer, parser, output statements, for loops over ranges, RenderContext scope chain) is exercised, not modelled beyond text/variable/loop nodes",
 ]
 MANIFEST = {
     "technique": "Lean 4 proof (functional induction over the mutually recursive renderer; induction over the extends chain) + differential correspondence on generated and exhaustively enumerated inheritance chains",
-    "text": "Theorems inherit_eq_flatten (render of a leaf = declarative flatten of its chain, any length, any nesting), stacks_eq_defs, child_renders_only_blocks, required_raises, cycle_raises, dup_rejected_partial/_counterexample, endblock_mismatch_rejected, endblock_rejected_only_on_mismatch, flatten_unbounded_example about the model of extends_tag.py; the model is tied to the code by exhaustive small chains / extends graphs / endblock token sequences and random chains of length 1..4.",
-    "note": "Trusted: Lean kernel (axioms propext/Classical.choice/Quot.sound only), the hand model of extends_tag.py, the correspondence harness. Known findings: duplicate block names in a template rendered directly (no extends) are accepted; a chain with inverted nesting and block.super has no finite flattening and lets Python's RecursionError escape (theorem flatten_unbounded_example).",
+    "text": "Theorems inherit_eq_flatten (render of a leaf = declarative flatten of its chain, any length, any nesting), stacks_eq_defs, child_renders_only_blocks, required_raises, cycle_raises, dup_rejected_partial/_counterexample, endblock_mismatch_rejected, endblock_rejected_only_on_mismatch, flatten_unbounded_example, inherit_eq_flattenSyn (render = plain render of the syntactically flattened template), finite_no_depth_error, inherit_eq_plain_template/erase_scope_counterexample, super_rerendered_per_iteration, block_assign_scoped_partial/_counterexample about the model of extends_tag.py; the model is tied to the code by exhaustive small chains / extends graphs / endblock token sequences and random chains of length 1..4.",
+    "note": "Trusted: Lean kernel (axioms propext/Classical.choice/Quot.sound only), the hand model of extends_tag.py, the correspondence harness. Known findings: duplicate block names in a template rendered directly (no extends) are accepted; a chain with inverted nesting and block.super has no finite flattening and lets Python's RecursionError escape (theorem flatten_unbounded_example); assign/capture in a parent definition reached through block.super, or in a directly rendered block, leak into the enclosing scope.",
 }
 ASSUMPTIONS = [
-    "blocks contain text, output of global/loop variables, block.super, nested blocks and for-loops over literal ranges; assign/capture inside blocks are outside the model (a block body is its own local scope)",
+    "blocks contain text, output of global/loop variables, block.super, nested blocks and for-loops over literal ranges; assign/capture inside blocks are modelled separately (Model/InheritAssign.lean, without loops)",
     "extends tags are top-level nodes of a template (any position, any number)",
     "the scope.size() check of RenderContext.extend (direct/super path) is not modelled; generated nesting stays below it",
     "default Undefined (block.super without a parent renders as the empty string), autoescape off, Mode.STRICT",
@@ -697,7 +704,10 @@ class AsyncStream(_InheritStream):
 
     def cases(self, ctx):
         rng = ctx.rng_for("async")
-        return PoolStream().cases(ctx) + [gen_chain(rng) for _ in range(ctx.scale(700, 10000))]
+        pool = PoolStream().cases(ctx)
+        if ctx.tier != "thorough":
+            pool = pool[::3]
+        return pool + [gen_chain(rng) for _ in range(ctx.scale(700, 10000))]
 
     def impl(self, case):
         import asyncio
